@@ -1148,10 +1148,9 @@ impl<'src: 'ast, 'ast> Parser<'src, 'ast> {
 
         let template: &'ast str = match &content {
             ArenaCow::Borrowed(s) => s,
-            ArenaCow::Owned(..) => {
-                let s = self.alloc_str(content);
-                return self.alloc(Expr::String { parts: StringParts::Static(s), span });
-            }
+            // Escape sequences were already resolved by the scanner; the unescaped
+            // text is a template like any other.
+            ArenaCow::Owned(..) => self.alloc_str(content),
         };
 
         let segments = self.parse_template_segments(template);
